@@ -19,10 +19,16 @@ import (
 //	two()       returns (1, 2)
 //	id(x)       returns x
 //	raw(...)    hand-written check that accepts anything; returns nothing
+//	dflt(l=["d"], m={"k": 1}) returns [l, m] (the very objects it received)
 var (
 	v2VarParams = []*v2.Param{{Name: "args", Variable: true}}
 	v2IDParams  = []*v2.Param{{Name: "x"}}
 	v2AnyRet    = []*v2.Param{{Desc: "value"}}
+	// dflt(l=["d"], m={"k": 1}) returns [l, m]: default values that reach the script as they are
+	v2DfltParams = []*v2.Param{
+		{Name: "l", Val: func() any { return []any{"d"} }},
+		{Name: "m", Val: func() any { return map[string]any{"k": int64(1)} }},
+	}
 )
 
 func v2check(params []*v2.Param) v2.FnCall {
@@ -94,6 +100,22 @@ func V2Fns() map[string]*v2.Fn {
 				}
 				lv, dt := goToDT(v)
 				ctx.Regs.ReturnAppend(v2.V{V: lv, T: dt})
+				return nil
+			},
+		},
+		"dflt": {
+			Desc:      v2.FnDesc{Name: "dflt", Params: v2DfltParams, Returns: v2AnyRet},
+			CallCheck: v2check(v2DfltParams),
+			Call: func(ctx *v2.Task, e *ast.CallExpr) *errchain.PlError {
+				l, err := v2.GetParam(ctx, e, v2DfltParams, 0)
+				if err != nil {
+					return err
+				}
+				m, err := v2.GetParam(ctx, e, v2DfltParams, 1)
+				if err != nil {
+					return err
+				}
+				ctx.Regs.ReturnAppend(v2.V{V: []any{l, m}, T: ast.List})
 				return nil
 			},
 		},
